@@ -1168,9 +1168,9 @@ func (e *Enc) encodeBlocks(fr *Frame, order []*ssa.BasicBlock, entry *State, wit
 		}
 		// blocks of a loop declared `fresh_writes`: heap writes are checked to go to objects allocated during the call
 		pushed := 0
-		if c := e.contractOfFn(fr.fn); c != nil {
+		{
 			for _, l := range fr.loops {
-				if sp := c.Loops[l.ordinal]; sp != nil && sp.FreshWrites && l.body[b.Index] {
+				if sp := e.loopSpecOrd(fr, l.ordinal); sp != nil && sp.FreshWrites && l.body[b.Index] {
 					name := fmt.Sprintf("loop%d", l.ordinal)
 					if fr.parent != nil {
 						name = shortFn(fr.fn) + "/" + name
